@@ -117,12 +117,6 @@ def replace1 (a : UInt8) (r : Bytes) : Bytes → Bytes
   | [] => []
   | x :: rest => if x = a then r ++ replace1 a r rest else x :: replace1 a r rest
 
-/-- `QByteArray::replace(before, after)` for a two-byte `before = [a, b]`: left to right, non-overlapping -/
-def replace2 (a b : UInt8) (r : Bytes) : Bytes → Bytes
-  | x :: y :: rest =>
-    if x = a ∧ y = b then r ++ replace2 a b r rest else x :: replace2 a b r (y :: rest)
-  | l => l
-
 /-- split at the first occurrence of `c`: (bytes before it, bytes after it); `none` when absent
 (`indexOf(c, from) < 0`) -/
 def splitAt1 (c : UInt8) : Bytes → Option (Bytes × Bytes)
@@ -176,14 +170,16 @@ def mapGet? : DMap → Bytes → Option Bytes
 /-- `map.value(k)` -/
 def mapGet (m : DMap) (k : Bytes) : Bytes := (mapGet? m k).getD []
 
-/-- the search for the closing quote in `parseMessage`: the first `"` whose predecessor (`prev`, initially the
-opening quote itself) is not a backslash; result = offset from the start of the quoted body -/
-def findClose (prev : UInt8) : Bytes → Option Nat
+/-- the quoted-string scanner of `parseMessage` (repo commit aca51c7): from just after the opening quote, copy bytes up
+to the closing quote; a backslash that is not the last byte escapes the next byte (quoted-pair).  Result: the
+unquoted value and the input after the closing quote; `none` = "Unfinished quoted string". -/
+def scanQuoted : Bytes → Option (Bytes × Bytes)
   | [] => none
-  | c :: rest => if c = 34 ∧ prev ≠ 92 then some 0 else (findClose c rest).map (· + 1)
-
-/-- `value.replace("\\\"", "\""); value.replace("\\\\", "\\")` -/
-def unescape (v : Bytes) : Bytes := replace2 92 92 [92] (replace2 92 34 [34] v)
+  | [c] => if c = 34 then some ([], []) else none
+  | c :: d :: rest =>
+    if c = 34 then some ([], d :: rest)
+    else if c = 92 then (scanQuoted rest).map fun r => (d :: r.1, r.2)
+    else (scanQuoted (d :: rest)).map fun r => (c :: r.1, r.2)
 
 /-- `value.replace('\\', "\\\\"); value.replace('"', "\\\"")` -/
 def escape (v : Bytes) : Bytes := replace1 34 [92, 34] (replace1 92 [92, 92] v)
@@ -199,10 +195,9 @@ def parseGo : Nat → Bytes → DMap → DMap
       let key := trim kv.1
       if kv.2.isEmpty then mapInsert acc key []
       else if kv.2.head? = some 34 then
-        match findClose 34 kv.2.tail with
+        match scanQuoted kv.2.tail with
         | none => acc
-        | some e =>
-          parseGo fuel (kv.2.tail.drop (e + 2)) (mapInsert acc key (unescape (kv.2.tail.take e)))
+        | some r => parseGo fuel (r.2.drop 1) (mapInsert acc key r.1)
       else
         parseGo fuel (kv.2.drop (idxOrEnd 44 kv.2 + 1)) (mapInsert acc key (kv.2.take (idxOrEnd 44 kv.2)))
 
@@ -236,8 +231,8 @@ structure Cred where
   htMech : Nat := 0
   token : Option (Nat × Bytes) := none
 
-/-- `QXmppSaslClientScram` members.  `verified` is a ghost flag: set exactly when the comparison with
-`m_serverSignature` in step 2 succeeded (the C++ has no such member; it returns an empty response instead). -/
+/-- `QXmppSaslClientScram` members.  `verified` is `m_serverVerified` (repo commit 0b21ae7): set exactly when the
+comparison with `m_serverSignature` in step 2 succeeded; read by the managers through `serverVerified()`. -/
 structure ScramSt where
   step : Nat := 0
   firstBare : Bytes := []
@@ -245,14 +240,17 @@ structure ScramSt where
   verified : Bool := false
   deriving DecidableEq, Repr
 
+/-- `scramSaslName` (repo commit 43097ab): `name.replace('=', "=3D"); name.replace(',', "=2C")` -/
+def scramSaslName (user : Bytes) : Bytes := replace1 44 [61, 50, 67] (replace1 61 [61, 51, 68] user)
+
 /-- `c=` base64(gs2 header) `,r=` nonce -/
 def scramFinalBare (nonce : Bytes) : Bytes := sCEq ++ Base64.encode sGs2Header ++ sCommaREq ++ nonce
 
 /-- `QXmppSaslClientScram::respond` -/
 def scramStep (C : Crypto) (cr : Cred) (s : ScramSt) (ch : Bytes) : ScramSt × Option Bytes :=
   if s.step = 0 then
-    ({ s with step := 1, firstBare := sNEq ++ cr.user ++ sCommaREq ++ cr.cnonce },
-     some (sGs2Header ++ (sNEq ++ cr.user ++ sCommaREq ++ cr.cnonce)))
+    ({ s with step := 1, firstBare := sNEq ++ scramSaslName cr.user ++ sCommaREq ++ cr.cnonce },
+     some (sGs2Header ++ (sNEq ++ scramSaslName cr.user ++ sCommaREq ++ cr.cnonce)))
   else if s.step = 1 then
     let input := parseGS2 ch
     let nonce := gs2Get input 114
@@ -362,7 +360,7 @@ def mechRespond (C : Crypto) (md5 : Bytes → Bytes) (cr : Cred) (m : MechSt) (c
   | .ht d => let r := htStep C cr d ch; (.ht r.1, r.2)
 
 /-- a top-level element received from the server, as the two `handleElement` functions classify it.
-`success` carries the SASL2 `<additional-data/>` (for SASL 1 the element's text, which the C++ never reads);
+`success` carries the SASL2 `<additional-data/>` (for SASL 1 the element's base64 text, `none` when empty);
 `failure aborted` = the condition is `aborted`; `continue_` is a SASL2 element (unknown to SASL 1);
 `unknown` = anything the `fromDom` functions refuse (wrong name/namespace, malformed base64, …). -/
 inductive El
@@ -379,6 +377,7 @@ inductive Res
   | cannotRespond    -- "Could not respond to SASL challenge" (ProcessingError)
   | authFailed       -- "Authentication failed: …"
   | requiredTasks    -- SASL2: "Required authentication tasks not supported."
+  | notProved        -- "Server did not prove knowledge of the password" (ProcessingError)
   deriving DecidableEq, Repr
 
 inductive Handled | accepted | rejected | finished
@@ -407,14 +406,29 @@ def mgrStart (C : Crypto) (md5 : Bytes → Bytes) (cr : Cred) (sasl2 : Bool) (k 
   | some initial => ({ sasl2 := sasl2, pending := true, mech := r.1 }, [.auth initial])
   | none => ({ sasl2 := sasl2, pending := false, mech := r.1, result := some .cannotRespond }, [])
 
-/-- `SaslManager::handleElement` (`sasl2 = false`) and `Sasl2Manager::handleElement` (`sasl2 = true`) -/
+/-- `m_saslClient->serverVerified()`: `m_serverVerified` for SCRAM, `true` for every other mechanism -/
+def mechVerified : MechSt → Bool
+  | .scram s => s.verified
+  | _ => true
+
+/-- `SaslManager::handleElement` (`sasl2 = false`) and `Sasl2Manager::handleElement` (`sasl2 = true`).
+`<success/>`: unless the mechanism reports the server as verified, the success data (SASL 1: the base64 text of the
+element, empty when there is none; SASL 2: `<additional-data/>`, and no `respond` call at all when it is absent) is
+fed to the mechanism, and the attempt fails unless that call answers and the server is verified afterwards. -/
 def mgrStep (C : Crypto) (md5 : Bytes → Bytes) (cr : Cred) (st : MgrSt) (el : El) : MgrSt × List Out × Handled :=
   if !st.pending then (st, [], .rejected)
   else
     match el with
-    | .success _ =>
-      -- finished with success whatever the mechanism's state; the data is not looked at
-      ({ st with pending := false, result := some .success }, [], .finished)
+    | .success data =>
+      if mechVerified st.mech then ({ st with pending := false, result := some .success }, [], .finished)
+      else
+        match (if st.sasl2 then data else some (data.getD [])) with
+        | none => ({ st with pending := false, result := some .notProved }, [], .finished)
+        | some d =>
+          let r := mechRespond C md5 cr st.mech d
+          if r.2.isSome && mechVerified r.1 then
+            ({ st with mech := r.1, pending := false, result := some .success }, [], .finished)
+          else ({ st with mech := r.1, pending := false, result := some .notProved }, [], .finished)
     | .challenge data =>
       let r := mechRespond C md5 cr st.mech data
       match r.2 with
@@ -438,10 +452,7 @@ def mgrRun (C : Crypto) (md5 : Bytes → Bytes) (cr : Cred) (st : MgrSt) : List 
 
 /-- "the server has proved knowledge of the password": for SCRAM the server signature was compared equal;
 mechanisms without mutual authentication have nothing to verify -/
-def serverSignatureVerified (st : MgrSt) : Bool :=
-  match st.mech with
-  | .scram s => s.verified
-  | _ => true
+def serverSignatureVerified (st : MgrSt) : Bool := mechVerified st.mech
 
 def isScram (st : MgrSt) : Bool :=
   match st.mech with
